@@ -211,4 +211,6 @@ with SqliteImpl.impl_store.impl_manager as impl:
 
     @impl(ops.dt_day_of_week)
     def _day_of_week(x):
-        return (sqa.extract("dow", x) + 6) % sqa.literal_column("7") + 1
+        # `%w` rounds the time to milliseconds first, so shortly before midnight it
+        # would already give the next day
+        return (sqa.extract("dow", sqa.func.date(x)) + 6) % sqa.literal_column("7") + 1
